@@ -51,6 +51,11 @@ type World struct {
 	cfg     RunSpec
 	linkHook func(l *Link)
 	AllClosed bool
+	corruptID   uint32
+	corruptLink *Link
+	corruptDir  int
+	corruptFrame *TapFrame
+	timingChecked bool
 	RawPeers []*RawPeer
 }
 
